@@ -24,12 +24,37 @@ RULE = (
     'has waiting packets, or >=2 connections competing while credits are exhausted, or an over-report. '
     'host: the same through Host.send_acl_sdu + Number_Of_Completed_Packets events with a recording '
     'controller sink. pipe: histories of write/pause/resume/sink-progress on FlowControlAsyncPipe; '
-    'non-trivial = >=2 packets queued when the pump runs. distinct by operation sequence.'
+    'non-trivial = >=2 packets queued when the pump runs; the delivery clause is judged after every step '
+    '(pipe not paused, sink idle, nothing ready to run => everything written has been delivered), not only at the end. '
+    'hostx: the host with the pools it learns through Host.reset() from a controller advertising BR/EDR ACL 1..4, '
+    'LE ACL 0..3 (0 = LE shares the BR/EDR pool; v2 or v1 LE Read Buffer Size) and ISO 1..3 buffers; 2..4 links out of '
+    '2 BR/EDR ACL, 2 LE ACL, 2 CIS, 2 BIS of one BIG; histories of send_acl_sdu/send_iso_sdu, whole '
+    'Number_Of_Completed_Packets events with 1..3 entries (links, dead links, a SCO handle, an unknown handle, zero '
+    'counts, over-reports), Disconnection Complete (accepted / refused / for a dead link / for a BIS), BIG terminated / '
+    'sync lost, re-establishment on the same handle, drain as Connection.drain does; credits are judged per pool '
+    'against what the controller advertised; a scripted family (hostx_directed) walks every pool arrangement x 1..2 '
+    'buffers x kind of first entry; non-trivial = links competing in an exhausted pool, a later entry of an event '
+    'freeing the buffer a waiting packet needs, a link discarded while another one of its pool waits. '
+    'qx/px: EVERY history of enqueue + 4 (thorough 6) further queue operations {enq, complete one, over-report, flush, '
+    'drain} over 2 connections x max_in_flight 1..2 and EVERY history of 5 (thorough 8) pipe operations {write 3 bytes, '
+    'write 8 bytes, pause, resume, sink progress} x thresholds {0,3,8,11} (= exact packet sizes) x with/without sink '
+    'drain, judged after every step (complete in both tiers; thorough is split over the shards). '
+    'distinct by operation sequence.'
 )
 ASSUMPTIONS = [
     'completion reports are clamped to what is really in flight for that connection (an over-report '
     'cannot free buffers held by another connection); unknown handles free nothing',
     'drain() raising for a connection that has nothing pending counts as finishing',
+    'hostx: while Host.remove_big discards the BISes of one BIG one after the other, a queued packet of a sibling BIS may '
+    'still be handed over between two discards (counted as discarded afterwards, no credit effect): the statement does '
+    'not forbid it, it is labelled and not judged; a packet for a dead link handed over after that step is a violation',
+    'hostx: all BISes of a BIG are gone when the controller reports the BIG terminated / lost (one event), a link is '
+    'gone when Disconnection Complete with status 0 arrives, a refused disconnection (status != 0) discards nothing; '
+    'a data packet handed over for a link that is gone is a violation (its packets were to be discarded)',
+    'hostx: in a completion event with several entries only the first entry may over-report (which packets the host '
+    'hands over between two entries of one event is left open; counts within what was in flight before the event '
+    'have an unambiguous outcome); the order in which packets of DIFFERENT links are handed over is not judged',
+    'hostx: completion entries for a SCO handle, an unknown handle or a link that is gone free nothing',
 ]
 
 CONNS = [1, 2, 3, 4]
@@ -53,7 +78,7 @@ def queue_ops():
     return st.tuples(st.integers(1, 8), st.lists(op, min_size=1, max_size=40))
 
 
-def run_queue_case(ctx, case) -> None:
+def run_queue_case(ctx, case, prefix='') -> None:
     from bumble.host import DataPacketQueue
 
     max_in_flight, ops = case
@@ -199,7 +224,12 @@ def run_queue_case(ctx, case) -> None:
                     break
                 continue
             break
-        ctx.case(('q', max_in_flight, ops), nontrivial, labels, sample={'queue': [max_in_flight, ops[:12]]})
+        ctx.case(
+            ('q', max_in_flight, ops),
+            nontrivial,
+            {prefix + l for l in labels} | ({prefix + 'cases'} if prefix else set()),
+            sample={'queue': [max_in_flight, ops[:12]]},
+        )
     finally:
         loop.shutdown()
 
@@ -356,6 +386,543 @@ def run_host_case(ctx, case) -> None:
 
 
 # ---------------------------------------------------------------------------
+# host-level machine over every buffer pool: the pools are what Host.reset() learns from
+# a controller that advertises them (BR/EDR ACL, LE ACL - separate or shared - and ISO),
+# the links are BR/EDR ACL, LE ACL, CIS and BIS, completion reports are whole
+# Number_Of_Completed_Packets events (several entries, unknown / SCO / dead handles mixed in)
+# ---------------------------------------------------------------------------
+HX_LINKS = [
+    ('bredr', 0x001),
+    ('bredr', 0x002),
+    ('le', 0x040),
+    ('le', 0x041),
+    ('cis', 0x060),
+    ('cis', 0x061),
+    ('bis', 0x070),
+    ('bis', 0x071),
+]
+HX_SCO = 0x080
+HX_UNKNOWN = 0x0EF
+HX_BIG = 1
+HX_ACL_SIZE = 8
+HX_ISO_SIZE = 12
+HX_LINK_SETS = [[4, 5], [6, 7], [4, 6], [0, 2], [2, 3], [0, 1], [4, 5, 6, 7], [0, 2, 4], [2, 4, 5], [1, 3, 6, 7]]
+
+
+def hostx_ops():
+    link = st.integers(0, 3)  # position in the case's link list (taken modulo its length)
+    target = st.one_of(link, link, link, st.sampled_from(['sco', 'unk']))
+    entry = st.tuples(target, st.integers(0, 4))
+    op = st.one_of(
+        st.tuples(st.just('send'), link, st.integers(1, 4), st.sampled_from([0, 3])),
+        st.tuples(st.just('send'), link, st.integers(1, 4), st.sampled_from([0, 3])),
+        st.tuples(st.just('send'), link, st.integers(2, 4), st.sampled_from([0, 3])),
+        st.tuples(st.just('send'), link, st.integers(2, 4), st.sampled_from([0, 3])),
+        st.tuples(st.just('ncp'), st.lists(entry, min_size=1, max_size=3)),
+        st.tuples(st.just('ncp'), st.lists(entry, min_size=2, max_size=3)),
+        st.tuples(st.just('disc'), link, st.sampled_from([0, 0, 0, 0x0C])),
+        st.tuples(st.just('conn'), link),
+        st.tuples(st.just('big'), st.sampled_from(['term', 'lost'])),
+        st.tuples(st.just('drain'), link),
+    )
+    cfg = st.fixed_dictionaries(
+        {
+            'acl': st.sampled_from([1, 1, 2, 2, 3, 4]),
+            'le': st.sampled_from([0, 0, 1, 1, 2, 3]),  # 0: the controller has no LE buffers of its own, LE shares the BR/EDR pool
+            'iso': st.sampled_from([1, 1, 2, 2, 3]),
+            'le_v2': st.sampled_from([True, True, True, False]),  # False: only LE Read Buffer Size v1 (no ISO pool)
+        }
+    )
+    links = st.one_of(
+        st.sampled_from(HX_LINK_SETS),
+        st.lists(st.integers(0, 7), min_size=2, max_size=4, unique=True),
+    )
+    # 'loaded' histories: every pool is filled first (2..5 multi-fragment sends), then drains,
+    # disconnections, BIG removals and completion events land on links that hold buffers and backlog
+    send = st.tuples(st.just('send'), link, st.integers(2, 4), st.sampled_from([0, 3]))
+    under_load = st.one_of(
+        st.tuples(st.just('drain'), link),
+        st.tuples(st.just('disc'), link, st.sampled_from([0, 0, 0x0C])),
+        st.tuples(st.just('disc'), link, st.just(0)),
+        st.tuples(st.just('big'), st.sampled_from(['term', 'lost'])),
+        st.tuples(st.just('ncp'), st.lists(entry, min_size=1, max_size=3)),
+        st.tuples(st.just('conn'), link),
+        send,
+    )
+    loaded = st.tuples(st.lists(send, min_size=2, max_size=5), st.lists(under_load, min_size=1, max_size=20)).map(
+        lambda t: t[0] + t[1]
+    )
+    return st.tuples(cfg, links, st.one_of(st.lists(op, min_size=3, max_size=30), loaded))
+
+
+def hostx_directed():
+    """Scripted histories: a multi-entry completion event whose LATER entry frees the buffer a
+    waiting packet needs, a disconnection (accepted / refused) or BIG removal under load, a
+    re-used handle - for every pool arrangement and 1..2 buffers."""
+    arrangements = [
+        ({'le': 2}, [0, 1]),  # two BR/EDR links, LE pool separate
+        ({'le': 2}, [2, 3]),  # two LE links on the LE pool
+        ({'le': 0}, [0, 2]),  # BR/EDR + LE sharing the BR/EDR pool
+        ({'le': 2}, [0, 2]),  # BR/EDR + LE on separate pools
+        ({'le': 2}, [4, 5]),  # two CIS
+        ({'le': 2}, [6, 7]),  # two BIS
+        ({'le': 0}, [4, 6]),  # CIS + BIS
+        ({'le': 2, 'le_v2': False}, [2, 3]),  # LE pool learnt through the v1 command
+    ]
+    firsts = [['unk', 1], ['sco', 1], [1, 0], [1, 1], [0, 0]]
+    for extra, links in arrangements:
+        for nbuf in (1, 2):
+            for first in firsts:
+                for status in (0, 0x0C):
+                    cfg = {'acl': nbuf, 'le': nbuf if extra.get('le') else 0, 'iso': nbuf, 'le_v2': extra.get('le_v2', True)}
+                    ops = [
+                        ('send', 0, 3, 0),
+                        ('send', 1, 3, 3),
+                        ('ncp', [first, [0, 1]]),
+                        ('drain', 1),
+                        ('ncp', [[0, 1], [1, 1]]),
+                        ('disc', 0, status),
+                        ('ncp', [[0, 2], [1, 1]]),
+                        ('conn', 0),
+                        ('send', 0, 2, 0),
+                        ('drain', 0),
+                        ('big', 'term'),
+                        ('ncp', [[1, 4]]),
+                        ('ncp', [['unk', 1], [0, 1], [1, 4]]),
+                        ('conn', 1),
+                        ('send', 1, 2, 0),
+                        ('ncp', [[0, 4], ['sco', 2], [1, 1]]),
+                        ('ncp', [[1, 1], [0, 4]]),
+                    ]
+                    yield cfg, links, ops
+
+
+def run_hostx_case(ctx, case, prefix='hx_') -> None:
+    from bumble import hci
+    from bumble.controller import Controller
+    from bumble.host import Host
+
+    cfg, links, ops = case
+    cfg = dict(cfg)
+    links = list(links)
+    if not cfg['le_v2']:
+        # without LE Read Buffer Size v2 the controller advertises no ISO buffers: ACL links only
+        links = sorted({l % 4 for l in links})
+        if len(links) < 2:
+            links = sorted({links[0], (links[0] + 2) % 4})
+    ops = [tuple(o) for o in ops]
+    advertised = {'acl': cfg['acl'], 'le': cfg['le'], 'iso': cfg['iso']}
+    shared = cfg['le'] == 0
+
+    def pool_of(idx):
+        kind = HX_LINKS[idx][0]
+        if kind == 'bredr':
+            return 'acl'
+        if kind == 'le':
+            return 'acl' if shared else 'le'
+        return 'iso'
+
+    loop = vloop.new_loop()
+    try:
+        class Sink:
+            def __init__(self):
+                self.packets = []
+
+            def on_packet(self, packet):
+                self.packets.append(bytes(packet))
+
+        sink = Sink()
+
+        async def setup():
+            controller = Controller('C04')
+            controller.acl_data_packet_length = HX_ACL_SIZE
+            controller.total_num_acl_data_packets = cfg['acl']
+            controller.le_acl_data_packet_length = HX_ACL_SIZE
+            controller.total_num_le_acl_data_packets = cfg['le']
+            controller.iso_data_packet_length = HX_ISO_SIZE
+            controller.total_num_iso_data_packets = cfg['iso']
+            if not cfg['le_v2']:
+                controller.supported_commands = set(Controller.supported_commands) - {
+                    hci.HCI_LE_READ_BUFFER_SIZE_V2_COMMAND
+                }
+            host = Host()
+            host.set_packet_sink(controller)
+            controller.set_packet_sink(host)
+            await host.reset(driver_factory=None)
+            controller.set_packet_sink(None)
+            host.set_packet_sink(sink)
+            return host
+
+        host = loop.complete(setup())
+        loop.settle()
+
+        def feed(event):
+            host.on_packet(bytes(event))
+
+        def establish(idx):
+            kind, handle = HX_LINKS[idx]
+            if kind == 'bredr':
+                feed(
+                    hci.HCI_Connection_Complete_Event(
+                        status=0,
+                        connection_handle=handle,
+                        bd_addr=hci.Address(f'F0:F0:F0:F0:F0:0{idx}', hci.Address.PUBLIC_DEVICE_ADDRESS),
+                        link_type=hci.HCI_Connection_Complete_Event.LinkType.ACL,
+                        encryption_enabled=0,
+                    )
+                )
+            elif kind == 'le':
+                feed(
+                    hci.HCI_LE_Connection_Complete_Event(
+                        status=0,
+                        connection_handle=handle,
+                        role=0,
+                        peer_address_type=0,
+                        peer_address=hci.Address(f'F0:F0:F0:F0:F0:0{idx}'),
+                        connection_interval=6,
+                        peripheral_latency=0,
+                        supervision_timeout=100,
+                        central_clock_accuracy=0,
+                    )
+                )
+            elif kind == 'cis':
+                feed(
+                    hci.HCI_LE_CIS_Established_Event(
+                        status=0,
+                        connection_handle=handle,
+                        cig_sync_delay=0,
+                        cis_sync_delay=0,
+                        transport_latency_c_to_p=0,
+                        transport_latency_p_to_c=0,
+                        phy_c_to_p=1,
+                        phy_p_to_c=1,
+                        nse=1,
+                        bn_c_to_p=1,
+                        bn_p_to_c=1,
+                        ft_c_to_p=1,
+                        ft_p_to_c=1,
+                        max_pdu_c_to_p=HX_ISO_SIZE,
+                        max_pdu_p_to_c=HX_ISO_SIZE,
+                        iso_interval=8,
+                    )
+                )
+            else:
+                raise ValueError(kind)
+
+        bis = [idx for idx in links if HX_LINKS[idx][0] == 'bis']
+
+        def establish_big():
+            feed(
+                hci.HCI_LE_Create_BIG_Complete_Event(
+                    status=0,
+                    big_handle=HX_BIG,
+                    big_sync_delay=0,
+                    transport_latency_big=0,
+                    phy=1,
+                    nse=1,
+                    bn=1,
+                    pto=0,
+                    irc=1,
+                    max_pdu=HX_ISO_SIZE,
+                    iso_interval=8,
+                    connection_handle=[HX_LINKS[idx][1] for idx in bis],
+                )
+            )
+
+        feed(
+            hci.HCI_Synchronous_Connection_Complete_Event(
+                status=0,
+                connection_handle=HX_SCO,
+                bd_addr=hci.Address('F0:F0:F0:F0:F0:0F', hci.Address.PUBLIC_DEVICE_ADDRESS),
+                link_type=0,
+                transmission_interval=0,
+                retransmission_window=0,
+                rx_packet_length=0,
+                tx_packet_length=0,
+                air_mode=2,
+            )
+        )
+        live = {idx: False for idx in links}
+        for idx in links:
+            if HX_LINKS[idx][0] != 'bis':
+                establish(idx)
+                live[idx] = True
+        if bis:
+            establish_big()
+            for idx in bis:
+                live[idx] = True
+        loop.settle()
+        by_handle = {HX_LINKS[idx][1]: idx for idx in links}
+        known = {**host.connections, **host.cis_links, **host.bis_links}
+        if HX_SCO not in host.sco_links or any(h not in known for h in by_handle):
+            raise RuntimeError('C04 hostx harness: links were not established')
+
+        inflight = {idx: 0 for idx in links}
+        expected: dict[int, collections.deque] = {idx: collections.deque() for idx in links}
+        serial = {idx: 0 for idx in links}
+        was_dead = set()
+        seen = len(sink.packets)
+        drains: list[tuple[int, asyncio.Task, int]] = []
+        labels = set()
+        nontrivial = False
+
+        def fail(sig, what, step):
+            ctx.fail(sig, what, {'kind': 'hostx', 'cfg': cfg, 'links': links, 'ops': ops[: step + 1]})
+
+        def pool_inflight(pool):
+            return sum(inflight[i] for i in links if pool_of(i) == pool)
+
+        def pool_waiting(pool):
+            return sum(len(expected[i]) for i in links if pool_of(i) == pool)
+
+        def waiting_links(pool, but=None):
+            return [i for i in links if pool_of(i) == pool and i != but and expected[i]]
+
+        def discard(idx):
+            expected[idx].clear()
+            inflight[idx] = 0
+            live[idx] = False
+            was_dead.add(idx)
+
+        ok = True
+        for step, op in enumerate(ops):
+            kind = op[0]
+            if kind == 'send':
+                idx = links[op[1] % len(links)]
+                lkind, handle = HX_LINKS[idx]
+                pool = pool_of(idx)
+                iso = pool == 'iso'
+                size = HX_ISO_SIZE if iso else HX_ACL_SIZE
+                sizes = [size - 4 if (iso and k == 0) else size for k in range(op[2])]
+                sizes[-1] -= op[3]
+                pieces = []
+                for n in sizes:
+                    pieces.append(serial[idx].to_bytes(2, 'big') + bytes([0xA0 + idx]) * (n - 2))
+                    serial[idx] = (serial[idx] + 1) & 0xFFFF
+                if live[idx]:
+                    expected[idx].extend(pieces)
+                    if idx in was_dead:
+                        labels.add('hx_traffic_on_reused_handle')
+                    rivals = waiting_links(pool)
+                    if pool_inflight(pool) >= advertised[pool] and len(rivals) >= 2:
+                        if iso:
+                            labels.add('hx_competing_iso')
+                        elif shared and {HX_LINKS[i][0] for i in rivals} == {'bredr', 'le'}:
+                            labels.add('hx_competing_shared_acl')
+                        else:
+                            labels.add('hx_competing_acl')
+                        nontrivial = True
+                else:
+                    labels.add('hx_send_on_dead_link')
+                # a dead link: the host knows no such link and must not put anything on the wire
+                sdu = b''.join(pieces)
+                if iso:
+                    host.send_iso_sdu(handle, sdu)
+                else:
+                    host.send_acl_sdu(handle, sdu)
+            elif kind == 'ncp':
+                handles, counts = [], []
+                snapshot = dict(inflight)
+                freed_before: set = set()
+                for pos, (target, n) in enumerate(op[1]):
+                    if target == 'sco':
+                        handles.append(HX_SCO)
+                        counts.append(n)
+                        continue
+                    if target == 'unk':
+                        handles.append(HX_UNKNOWN)
+                        counts.append(n)
+                        continue
+                    idx = links[target % len(links)]
+                    if pos > 0 and live[idx]:
+                        # later entries never over-report (which packets were handed over between two
+                        # entries of one event is left open by the statement): unambiguous outcome
+                        n = min(n, snapshot[idx])
+                    handles.append(HX_LINKS[idx][1])
+                    counts.append(n)
+                    if not live[idx]:
+                        labels.add('hx_completion_for_dead_link')
+                        continue
+                    if n > inflight[idx]:
+                        labels.add('hx_over_report')
+                    done = min(n, inflight[idx])
+                    if pos > 0 and done and pool_waiting(pool_of(idx)):
+                        labels.add('hx_later_entry_unblocks')
+                        nontrivial = True
+                        if pool_of(idx) not in freed_before:
+                            labels.add('hx_only_later_entry_unblocks')
+                    if done:
+                        freed_before.add(pool_of(idx))
+                    inflight[idx] -= done
+                    snapshot[idx] = max(0, snapshot[idx] - done)
+                if len(op[1]) > 1:
+                    labels.add('hx_multi_entry_event')
+                feed(hci.HCI_Number_Of_Completed_Packets_Event(connection_handles=handles, num_completed_packets=counts))
+            elif kind == 'disc':
+                idx = links[op[1] % len(links)]
+                lkind, handle = HX_LINKS[idx]
+                status = op[2]
+                pend = inflight[idx] + len(expected[idx])
+                if lkind == 'bis':
+                    # a BIS does not go away through Disconnection Complete: nothing may change
+                    labels.add('hx_disc_event_for_bis')
+                elif status != 0:
+                    if live[idx] and pend:
+                        labels.add('hx_refused_disc_with_pending')
+                        nontrivial = True
+                elif live[idx]:
+                    if pend and waiting_links(pool_of(idx), but=idx):
+                        labels.add('hx_disc_while_other_waiting_' + ('iso' if pool_of(idx) == 'iso' else 'acl'))
+                        nontrivial = True
+                    discard(idx)
+                else:
+                    labels.add('hx_disc_for_dead_link')
+                feed(hci.HCI_Disconnection_Complete_Event(status=status, connection_handle=handle, reason=0x13))
+            elif kind == 'conn':
+                idx = links[op[1] % len(links)]
+                if live[idx]:
+                    continue
+                if HX_LINKS[idx][0] == 'bis':
+                    establish_big()
+                    for b in bis:
+                        live[b] = True
+                else:
+                    establish(idx)
+                    live[idx] = True
+                labels.add('hx_handle_reused')
+            elif kind == 'big':
+                if not bis or not any(live[b] for b in bis):
+                    continue
+                pend = sum(inflight[b] + len(expected[b]) for b in bis)
+                if pend and any(expected[i] for i in links if pool_of(i) == 'iso' and i not in bis):
+                    labels.add('hx_big_removed_while_cis_waiting')
+                    nontrivial = True
+                if pend:
+                    labels.add('hx_big_removed_with_pending')
+                for b in bis:
+                    discard(b)
+                if op[1] == 'term':
+                    feed(hci.HCI_LE_Terminate_BIG_Complete_Event(big_handle=HX_BIG, reason=0x16))
+                else:
+                    feed(hci.HCI_LE_BIG_Sync_Lost_Event(big_handle=HX_BIG, reason=0x08))
+            elif kind == 'drain':
+                idx = links[op[1] % len(links)]
+                handle = HX_LINKS[idx][1]
+                # what bumble.device.Connection.drain() / the ISO links do
+                queue = host.get_data_packet_queue(handle)
+                if queue is None:
+                    if live[idx]:
+                        fail('hostx/no_queue_for_live_link', f'no data packet queue for live handle 0x{handle:03X}', step)
+                        ok = False
+                        break
+                    continue
+                labels.add('hx_drain_pending' if inflight[idx] + len(expected[idx]) else 'hx_drain_idle')
+                drains.append((idx, loop.create_task(queue.drain(handle)), step))
+            loop.settle()
+            # account for what reached the controller
+            while seen < len(sink.packets):
+                raw = sink.packets[seen]
+                seen += 1
+                if raw[0] not in (hci.HCI_ACL_DATA_PACKET, hci.HCI_ISO_DATA_PACKET):
+                    continue
+                header = int.from_bytes(raw[1:3], 'little')
+                handle = header & 0xFFF
+                if raw[0] == hci.HCI_ACL_DATA_PACKET:
+                    data = raw[5:]
+                else:
+                    pb, ts = (header >> 12) & 3, (header >> 14) & 1
+                    data = raw[5 + (4 if ts else 0) + (4 if pb in (0, 2) else 0) :]
+                idx = by_handle.get(handle)
+                if idx is None or (raw[0] == hci.HCI_ISO_DATA_PACKET) != (pool_of(idx) == 'iso'):
+                    fail('hostx/unknown_handle_sent', f'data packet for handle 0x{handle:03X} that has no such link', step)
+                    ok = False
+                    break
+                if not live[idx] and kind == 'big' and idx in bis:
+                    # Host.remove_big discards the BISes of the BIG one after the other: a packet of a sibling BIS may be
+                    # handed over between two of these discards (it is then counted as discarded, its buffer is free
+                    # again). The statement does not say that a packet about to be discarded is never handed over; only
+                    # packets handed over after the step are judged (ASSUMPTIONS).
+                    labels.add('hx_big_removal_hands_over_sibling_packet')
+                    continue
+                if not live[idx]:
+                    fail(
+                        'hostx/sent_on_dead_link',
+                        f'data packet handed to the controller for {HX_LINKS[idx][0]} handle 0x{handle:03X} after the '
+                        'controller reported that link gone (its packets were to be discarded)',
+                        step,
+                    )
+                    ok = False
+                    break
+                if not expected[idx] or expected[idx][0] != data:
+                    fail(
+                        'hostx/order',
+                        f'data packet out of order or duplicated ({HX_LINKS[idx][0]} handle 0x{handle:03X})',
+                        step,
+                    )
+                    ok = False
+                    break
+                expected[idx].popleft()
+                inflight[idx] += 1
+            if not ok:
+                break
+            for pool in ('acl', 'le', 'iso'):
+                total, waiting = pool_inflight(pool), pool_waiting(pool)
+                if total > advertised[pool] and not (pool == 'le' and shared):
+                    fail(
+                        f'hostx/over_credit_{pool}',
+                        f'{total} packets in flight, the controller advertised {advertised[pool]} {pool} buffers',
+                        step,
+                    )
+                    ok = False
+                    break
+                if waiting and total < advertised[pool]:
+                    fail(
+                        f'hostx/stall_after_{kind}',
+                        f'{waiting} {pool} packet(s) waiting while only {total}/{advertised[pool]} buffers are in use',
+                        step,
+                    )
+                    ok = False
+                    break
+            if not ok:
+                break
+            if not shared and pool_inflight('acl') and pool_inflight('le'):
+                labels.add('hx_both_acl_pools_busy')
+            for idx, task, started in list(drains):
+                pend = inflight[idx] + len(expected[idx])
+                if task.done():
+                    drains.remove((idx, task, started))
+                    exc = task.exception() if not task.cancelled() else None
+                    if pend:
+                        fail(
+                            'hostx/drain_raises_with_pending' if exc is not None else 'hostx/drain_early',
+                            f'drain() finished ({type(exc).__name__ if exc else "normally"}) while {pend} packet(s) of the link are pending',
+                            step,
+                        )
+                        ok = False
+                        break
+                    if started != step:
+                        labels.add('hx_drain_released_by_' + kind)
+                elif pend == 0:
+                    fail(
+                        'hostx/drain_hangs',
+                        'drain() still waiting although every packet of the link was completed or discarded',
+                        step,
+                    )
+                    ok = False
+                    break
+            if not ok:
+                break
+        ctx.case(
+            ('hx', cfg, links, ops),
+            nontrivial,
+            {prefix + l[3:] for l in labels} | {prefix + 'cases'},
+            sample={'hostx': [cfg, links, ops[:8]]},
+        )
+    finally:
+        loop.shutdown()
+
+
+# ---------------------------------------------------------------------------
 # pipe machine
 # ---------------------------------------------------------------------------
 def pipe_ops():
@@ -375,7 +942,7 @@ def pipe_ops():
     )
 
 
-def run_pipe_case(ctx, case) -> None:
+def run_pipe_case(ctx, case, prefix='') -> None:
     from bumble.utils import FlowControlAsyncPipe
 
     threshold, with_drain, ops = case
@@ -449,6 +1016,20 @@ def run_pipe_case(ctx, case) -> None:
             if not check_prefix(step):
                 ok = False
                 break
+            if not paused and not gate and delivered != written:
+                # nothing is ready to run, the pipe is not paused and the sink is not busy: if the
+                # history ended here these packets would never be delivered
+                labels.add('held_back_midway')
+                fail(
+                    'pipe/lost',
+                    f'{len(written) - len(delivered)} written packet(s) held back although the pipe is not '
+                    'paused and the sink is idle (nothing left to run)',
+                    step,
+                )
+                ok = False
+                break
+            if paused and gate and len(pipe.queue) >= 1:
+                labels.add('paused_during_sink_drain_with_backlog')
         if ok:
             # quiescence: un-pause, let the sink make progress until nothing moves
             pipe.resume()
@@ -465,9 +1046,72 @@ def run_pipe_case(ctx, case) -> None:
                     step,
                 )
         pipe.stop()
-        ctx.case(('p', threshold, with_drain, ops), nontrivial, labels, sample={'pipe': [threshold, with_drain, ops[:10]]})
+        ctx.case(
+            ('p', threshold, with_drain, ops),
+            nontrivial,
+            {prefix + l for l in labels} | ({prefix + 'cases'} if prefix else set()),
+            sample={'pipe': [threshold, with_drain, ops[:10]]},
+        )
     finally:
         loop.shutdown()
+
+
+# ---------------------------------------------------------------------------
+# small-scope exhaustive families ("all interleavings" up to a bound): EVERY history of a
+# fixed length over a small alphabet; the oracles run after every step, so all shorter
+# histories are judged on the way.  quick: the complete family of a shorter length;
+# thorough: two / three operations longer, split over the shards.
+# ---------------------------------------------------------------------------
+QX_FIRST = ('enq', 1)  # a history that starts with anything else on the empty queue is a shorter one
+QX_ALPHABET = [
+    ('enq', 1),
+    ('enq', 2),
+    ('done', 1, 'one'),
+    ('done', 2, 'one'),
+    ('done', 1, 'over'),
+    ('flush', 1),
+    ('flush', 2),
+    ('drain', 1),
+    ('drain', 2),
+]
+PX_ALPHABET = [('write', 1), ('write', 6), ('pause',), ('resume',), ('progress',)]
+PX_CONFIGS = [(t, d) for t in (0, 3, 8, 11) for d in (True, False)]  # 3 / 8 / 11 = exact packet sizes (3, 8, 3+8)
+
+
+def nth_history(alphabet, length, i):
+    ops = []
+    for _ in range(length):
+        i, r = divmod(i, len(alphabet))
+        ops.append(alphabet[r])
+    return ops
+
+
+def exhaustive(ctx, name, total, fn) -> None:
+    for i in range(ctx.shard, total, ctx.nshards):
+        if ctx.out_of_time():
+            ctx.label('budget_hit:' + name)
+            break
+        fn(i)
+
+
+def run_exhaustive(ctx) -> None:
+    q_len = ctx.pick(4, 6)  # operations after QX_FIRST
+    q_hist = len(QX_ALPHABET) ** q_len
+
+    def q_case(i):
+        ops = [QX_FIRST] + nth_history(QX_ALPHABET, q_len, i % q_hist)
+        run_queue_case(ctx, (1 + i // q_hist, ops), prefix='qx_')
+
+    exhaustive(ctx, 'qx', 2 * q_hist, q_case)  # max_in_flight 1 and 2
+
+    p_len = ctx.pick(5, 8)
+    p_hist = len(PX_ALPHABET) ** p_len
+
+    def p_case(i):
+        threshold, with_drain = PX_CONFIGS[i // p_hist]
+        run_pipe_case(ctx, (threshold, with_drain, nth_history(PX_ALPHABET, p_len, i % p_hist)), prefix='px_')
+
+    exhaustive(ctx, 'px', len(PX_CONFIGS) * p_hist, p_case)
 
 
 # ---------------------------------------------------------------------------
@@ -476,9 +1120,47 @@ def run(ctx) -> None:
     ctx.hyp('queue', lambda c: run_queue_case(ctx, c), queue_ops(), max_examples=ctx.n(1500, 150000))
     ctx.hyp('host', lambda c: run_host_case(ctx, c), host_ops(), max_examples=ctx.n(500, 40000))
     ctx.hyp('pipe', lambda c: run_pipe_case(ctx, c), pipe_ops(), max_examples=ctx.n(800, 60000))
+    # every shard runs the whole (small) directed family: its labels have floors
+    for case in hostx_directed():
+        run_hostx_case(ctx, case, prefix='hxd_')
+    run_exhaustive(ctx)
+    ctx.hyp('hostx', lambda c: run_hostx_case(ctx, c), hostx_ops(), max_examples=ctx.n(1000, 60000))
     ctx.floor('flush_while_other_waiting', 10)
     ctx.floor('competing_connections', 10)
     ctx.floor('two_queued', 10)
+    ctx.floor('paused_during_sink_drain_with_backlog', 10)
+    # hostx, scripted family (run as a whole by every shard)
+    ctx.floor('hxd_cases', 160)
+    ctx.floor('hxd_only_later_entry_unblocks', 100)
+    ctx.floor('hxd_competing_iso', 30)
+    ctx.floor('hxd_competing_shared_acl', 10)
+    ctx.floor('hxd_disc_while_other_waiting_acl', 20)
+    ctx.floor('hxd_disc_while_other_waiting_iso', 10)
+    ctx.floor('hxd_big_removed_while_cis_waiting', 10)
+    ctx.floor('hxd_refused_disc_with_pending', 30)
+    ctx.floor('hxd_traffic_on_reused_handle', 50)
+    ctx.floor('hxd_drain_released_by_big', 20)
+    # hostx, generated histories
+    ctx.floor('hx_only_later_entry_unblocks', 15)
+    ctx.floor('hx_competing_acl', 25)
+    ctx.floor('hx_competing_iso', 30)
+    ctx.floor('hx_competing_shared_acl', 10)
+    ctx.floor('hx_both_acl_pools_busy', 30)
+    ctx.floor('hx_disc_while_other_waiting_acl', 20)
+    ctx.floor('hx_disc_while_other_waiting_iso', 6)
+    ctx.floor('hx_big_removed_with_pending', 15)
+    ctx.floor('hx_big_removed_while_cis_waiting', 2)
+    ctx.floor('hx_refused_disc_with_pending', 8)
+    ctx.floor('hx_traffic_on_reused_handle', 4)
+    # small-scope exhaustive families: complete (quick: 2 * 9**4 and 8 * 5**5 histories; a thorough shard has more)
+    ctx.floor('qx_cases', 2 * 9**4)
+    ctx.floor('qx_flush_while_other_waiting', 350)
+    ctx.floor('qx_competing_connections', 500)
+    ctx.floor('qx_over_report_with_other_in_flight', 3500)
+    ctx.floor('qx_drain_pending', 3500)
+    ctx.floor('px_cases', 8 * 5**5)
+    ctx.floor('px_two_queued', 5000)
+    ctx.floor('px_paused_during_sink_drain_with_backlog', 2000)
 
 
 def replay(ctx, case) -> None:
@@ -487,6 +1169,8 @@ def replay(ctx, case) -> None:
         run_queue_case(ctx, (case['max_in_flight'], case['ops']))
     elif kind == 'host':
         run_host_case(ctx, (case['buffers'], case['ops']))
+    elif kind == 'hostx':
+        run_hostx_case(ctx, (case['cfg'], case['links'], case['ops']))
     elif kind == 'pipe':
         run_pipe_case(ctx, (case['threshold'], case['with_drain'], case['ops']))
     else:
